@@ -93,6 +93,11 @@ PAYLOADS = [
     # harmless expressions whose evaluation converts or caches something: the parsed expression must come out unchanged
     'date >= "2025-01-01"', 'txn.date < "2026-01-01"', 'date == "2025-12-31"', '"2025-01-01" <= date', 'field.date != "2025-12-31"',
     '[r.n for r in orders if date > "2020-01-01"]', 'regex("A.FA") and regex("A.FA")', 'extract("(\\d+)") == "123"',
+    # functions that take an accumulator / default: the accumulator is the caller's list (a data source, a variable) and must not grow
+    'sum([[q for q in orders if q.n == o.n] for o in orders], orders)', 'len(sum([[q.n for q in orders] for o in orders], orders)) > 0',
+    '(acc := [r for r in orders]) and sum([[q for q in orders] for o in orders], acc) and len(acc) == 2',
+    'sum([[q for q in orders] for o in orders], [r for r in orders])', 'sum([r.n for r in orders], 0)',
+    'max(orders, orders)', 'min(orders, [r for r in orders])', 'orders + orders', '[r for r in orders][0]', 'next((r for r in orders), orders)',
     'amount > 50 and amount > "50"', 'description == "APLPAY ALFA STORE #123"', 'month == "12"', '(x := "2025-01-01") and date > x',
 ]
 
